@@ -1,0 +1,62 @@
+//! Verification hooks. Compiled only with `--cfg surrealkv_verif`.
+//!
+//! Nothing in here is reachable from a normal build. The hooks are add-only:
+//! an `emit`/`gate` call records (and, for `gate`, may park) the calling
+//! thread at a named site; `failpoint` lets a harness make a named step fail.
+//! Without an installed sink every hook is a no-op.
+
+use std::sync::atomic::{AtomicU64, Ordering};
+use std::sync::{Arc, RwLock};
+
+/// Receiver of hook events, installed by the verification harness.
+pub trait Sink: Send + Sync {
+	/// A state change at `site` has happened and is not yet visible to other
+	/// threads (the protecting lock is still held). Must not block.
+	fn emit(&self, ticket: u64, site: &'static str, fields: &[(&'static str, u64)]);
+	/// The calling thread is at a yield point; the sink may park it.
+	/// Only called where no unmodelled lock is held.
+	fn gate(&self, ticket: u64, site: &'static str, fields: &[(&'static str, u64)]);
+	/// Should the named step fail now?
+	fn failpoint(&self, _name: &'static str, _fields: &[(&'static str, u64)]) -> bool {
+		false
+	}
+}
+
+static SINK: RwLock<Option<Arc<dyn Sink>>> = RwLock::new(None);
+static TICKET: AtomicU64 = AtomicU64::new(1);
+
+/// Install (or with `None` remove) the process-wide sink.
+pub fn set_sink(sink: Option<Arc<dyn Sink>>) {
+	*SINK.write().unwrap() = sink;
+}
+
+/// Next value of the global event order (shared by all hooks).
+pub fn next_ticket() -> u64 {
+	TICKET.fetch_add(1, Ordering::SeqCst)
+}
+
+fn sink() -> Option<Arc<dyn Sink>> {
+	SINK.read().unwrap().clone()
+}
+
+#[allow(dead_code)]
+pub(crate) fn emit(site: &'static str, fields: &[(&'static str, u64)]) {
+	if let Some(s) = sink() {
+		s.emit(next_ticket(), site, fields);
+	}
+}
+
+#[allow(dead_code)]
+pub(crate) fn gate(site: &'static str, fields: &[(&'static str, u64)]) {
+	if let Some(s) = sink() {
+		s.gate(next_ticket(), site, fields);
+	}
+}
+
+#[allow(dead_code)]
+pub(crate) fn failpoint(name: &'static str, fields: &[(&'static str, u64)]) -> bool {
+	match sink() {
+		Some(s) => s.failpoint(name, fields),
+		None => false,
+	}
+}
